@@ -1,4 +1,6 @@
 #!/bin/bash
-# Runs /repo's pinned suite (root package + subpackages) and prints failing tests other than the baseline's always-failing one.
+# Runs the repo's suite and reports failing tests other than the baseline's always-failing TestVerifyHostname.
 cd ${1:-/repo} && unset GOWORK; export GOFLAGS=-mod=mod GOPROXY=off
-go test -vet=off -count=1 -timeout 25m ./... 2>&1 | grep -E "^(--- FAIL|FAIL|ok|panic)" | grep -v "TestVerifyHostname" 
+out=$(go test -vet=off -count=1 -timeout 25m ./... 2>&1)
+bad=$(echo "$out" | grep -E "^\s*--- FAIL|^panic|\[build failed\]|cannot|undefined" | grep -v "TestVerifyHostname")
+if [ -z "$bad" ]; then echo "SUITE-OK (only baseline failure TestVerifyHostname, if any)"; else echo "SUITE-FAIL"; echo "$bad"; fi
